@@ -104,6 +104,9 @@ def observe(model, cname):
     try:
         if hasattr(model, "get_objective_value"):
             obs["objective"] = canon(model.get_objective_value())
+        elif cname == "MinSetCover":
+            # the minimised quantity: total weight of the chosen subsets
+            obs["objective"] = canon(sum(model.subset_weights[i_] for i_ in model.get_solution()))
         else:
             s_ = model.get_solution()
             obs["objective"] = len(s_) if s_ is not None else None
